@@ -27,8 +27,7 @@ func (m *Module) Init(s *models.Session, p *models.Participant) {
 
 	state, ok := s.ModuleState(m.Name())
 	if !ok {
-		state = &State{}
-		s.SetModuleState(m.Name(), state)
+		state = s.LoadOrStoreModuleState(m.Name(), &State{})
 	}
 	m.state = state.(*State)
 }
